@@ -85,6 +85,24 @@ def h_text(ctx, fmt):
                   ctx.oracle(T.ASCQ_TEXT[c].lower() in low), txt)
 
 
+def h_two_errors(ctx, n1, n2):
+    """an error object keeps reporting its own sense data after other errors have been created"""
+    from pyscsi.pyscsi.scsi_sense import SCSICheckCondition
+    b1, b2 = ctx.bytes("first", n1), ctx.bytes("second", n2)
+    e1 = SCSICheckCondition(b1)
+    f1, k1, a1, q1 = _positions(b1)
+    snap = dict(e1.data)
+    e2 = SCSICheckCondition(b2)
+    f2, k2, a2, q2 = _positions(b2)
+    if f1:
+        ctx.check("first error still reports its own sense key", e1.data.get("sense_key", -1) == ctx.oracle(k1))
+        ctx.check("first error still reports its own ASC/ASCQ", (e1.asc == ctx.oracle(a1)) & (e1.ascq == q1))
+    ctx.check("first error's decoded data is untouched by the second", e1.data == snap)
+    ctx.check("the two errors do not share their data", e1.data is not e2.data)
+    if f2:
+        ctx.check("second error reports its own sense key", e2.data.get("sense_key", -1) == ctx.oracle(k2))
+
+
 def obligations(tier):
     from symx.harness import Ob
     obs = []
@@ -95,6 +113,8 @@ def obligations(tier):
                           abstract_dicts=True, split=True, canary=(n >= 14)))
     for fmt in ("fixed", "descriptor"):
         obs.append(Ob("text/%s" % fmt, MOD, "h_text", {"fmt": fmt}, split=True))
+    for n1, n2 in ((18, 18), (18, 8), (8, 18)):
+        obs.append(Ob("two-errors/%d,%d" % (n1, n2), MOD, "h_two_errors", {"n1": n1, "n2": n2}, abstract_dicts=True, split=True))
     return obs
 
 
